@@ -19,9 +19,17 @@ ASSUMPTIONS = ["stdlib configparser.RawConfigParser is a correct, independent IN
                "family names that trigger the documented RHEL/Fedora/CentOS heuristics and versions containing '-'/'_' are kept out of the metamorphic part only"]
 FLOORS = {"general": 400, "general:src-tree": 60, "general:explicit-main": 100, "general:float-timestamp": 60, "legacy-view": 150}
 
-_ts = st.one_of(st.integers(1, 2 ** 31), st.integers(-5, -1), st.floats(min_value=-1e6, max_value=1e12, allow_nan=False).filter(lambda f: f != 0.0),
+_ts = st.one_of(st.integers(1, 2 ** 31), st.integers(-5, -1), st.sampled_from([2 ** 53 + 1, 1758844800123456789, 2 ** 63 - 1]), st.integers(2 ** 53, 2 ** 70), st.floats(min_value=-1e6, max_value=1e12, allow_nan=False).filter(lambda f: f != 0.0),
                 st.sampled_from([1386857206.61, 1410862874.59, 0.5, -0.5, 1e22, 2.0 ** 53 + 2]))
 general_strategy = st.fixed_dictionaries({"desc": tim.tree_desc(max_depth=2, timestamps=_ts), "use_main": st.booleans(), "plan": st.sampled_from([0, 1, 2])})
+
+
+def _whole(text):
+    """integer part of a decimal number written as text, exact for integers of any size"""
+    try:
+        return int(text)
+    except ValueError:
+        return int(float(text))
 
 
 def general_case(case):
@@ -40,7 +48,7 @@ def general_case(case):
           and g.get("name") == "%s %s" % (rel.get("name"), rel.get("version")), "general-vs-release", lambda: "general %r vs release %r" % (g, rel))
     check(g.get("arch") == tree.get("arch") and g.get("platforms") == tree.get("platforms")
           and g.get("arch") in g.get("platforms", "").split(","), "general-vs-tree", lambda: "general %r vs tree %r" % (g, tree))
-    check(g.get("timestamp") == str(int(float(tree.get("build_timestamp")))), "general-timestamp", lambda: "timestamp %r vs build_timestamp %r" % (
+    check(g.get("timestamp") == str(_whole(tree.get("build_timestamp"))), "general-timestamp", lambda: "timestamp %r vs build_timestamp %r" % (
         g.get("timestamp"), tree.get("build_timestamp")))
     tops = sorted(tree.get("variants", "").split(","))
     check(g.get("variant") == (main if main is not None else tops[0]), "main-variant", lambda: "variant %r, requested %r, top-level %r" % (g.get("variant"), main, tops))
